@@ -514,7 +514,7 @@ def _circle(n):
     return [[1 if (x - c) ** 2 + (y - c) ** 2 <= (n / 2.0) ** 2 else 0 for y in range(n)] for x in range(n)]
 
 
-SPECIALS = ["large", "many-layers", "many-wfs", "single-subap", "dup-layers", "on-axis", "unsorted-layers"]
+SPECIALS = ["large", "many-layers", "many-wfs", "single-subap", "dup-layers", "on-axis", "unsorted-layers", "same-count-masks", "long-profile"]
 
 
 def shuffle_layers(rng, cfg, how=None):
@@ -612,6 +612,32 @@ def gen_special(rng, kind, thorough=False):
         if cfg["n_layers"] < 3 and rng.random() < 0.7:
             layers(cfg, rng.choice([3, 4, 5]))
         cfg = shuffle_layers(rng, cfg)
+    elif kind == "same-count-masks":
+        # sensors that agree in everything a cheap equivalence test looks at — number of sub-apertures, sub-aperture size, grid — but
+        # not in WHICH sub-apertures are lit (a different dead sub-aperture each), over a layer at altitude exactly 0 (no cone, no
+        # shift: the one layer where "the same sensor" is tempting) plus an elevated one
+        cfg = gen_config(rng, n_wfs=rng.choice([2, 3, 3, 4]))
+        nx = rng.choice([3, 4])
+        base = [[1] * nx for _ in range(nx)]
+        cells = rng.sample([(i, j) for i in range(nx) for j in range(nx)], cfg["n_wfs"])
+        masks = []
+        for (i, j) in cells:
+            m = [row[:] for row in base]
+            m[i][j] = 0
+            masks.append(m)
+        cfg.update(pupil_masks=masks, subap_diameters=[cfg["telescope_diameter"] / nx] * cfg["n_wfs"])
+        layers(cfg, rng.choice([2, 3]))
+        cfg["layer_altitudes"] = [0.0] + [float(a) + 1000.0 for a in list(cfg["layer_altitudes"])[1:]]
+    elif kind == "long-profile":
+        # the profile arrays hold more layers than n_layers says (a tabulated profile of which the first n are used — the test-suite
+        # does the same with gs_positions): both assembly paths must use the same n_layers of them
+        cfg = gen_config(rng, hetero=rng.random() < 0.5)
+        if cfg["n_layers"] < 2:
+            layers(cfg, 3)
+        extra = rng.randint(1, 3)
+        for f, gen in (("layer_altitudes", lambda: rng.choice([3000.0, 8000.0, 12000.0]) + rng.uniform(0, 100)),
+                       ("layer_r0s", lambda: rng.uniform(0.05, 1.0)), ("layer_L0s", lambda: rng.choice([10.0, 25.0, 50.0]))):
+            cfg[f] = list(cfg[f]) + [gen() for _ in range(extra)]
     else:
         raise ValueError(kind)
     cfg["special"] = kind
